@@ -449,7 +449,7 @@ func (p *parser) strAt() (*Node, *Err) {
 				}
 				// first byte that breaks well-formedness
 				bad := p.pos
-				for k := 1; k < 4 && p.pos+k <= len(b); k++ {
+				for k := 1; k <= 4 && p.pos+k <= len(b); k++ {
 					if _, pre := utf8SeqLen(b[p.pos : p.pos+k]); !pre {
 						bad = p.pos + k - 1
 						break
